@@ -99,6 +99,7 @@ class ParkSet(set):
         super().__init__()
         self.sched = sched
         self.name = name
+        self.adds_by = {}      # thread -> number of add() calls since the harness last reset it
 
     def _park(self, what):
         if self.sched.tid() is not None:
@@ -110,6 +111,9 @@ class ParkSet(set):
 
     def add(self, x):
         self._park('add')
+        t = self.sched.tid()
+        if t is not None:
+            self.adds_by[t] = self.adds_by.get(t, 0) + 1
         return set.add(self, x)
 
     def discard(self, x):
